@@ -50,9 +50,9 @@ func init() {
 	registerProp(&Property{
 		ID: "C06", Core: []string{"AFF-2", "AFF-3"}, Kind: "necessary structural clauses",
 		Tech:  "symbolic affine execution of the routers (point-sequence shapes, orthogonality as shared coordinate expressions), SSA value-identity for spline joining",
-		Rules: []string{"AFF-2", "AFF-3", "AFF-9", "OWN-1", "PAIR-3", "FLOW-1", "DISP-1", "OPTS-1", "ORD-6"},
+		Rules: []string{"AFF-2", "AFF-3", "AFF-9", "OWN-1", "PAIR-3", "FLOW-1", "DISP-1", "OPTS-1", "ORD-6", "ITER-1"},
 		Explanation: "PAIR-3 + FLOW-1: the caller receives the router's point list itself - a plain copy (slices.Clone or a package helper that receives e.Points) whose only change is the component shift added to x; nothing is filtered, compacted or re-ordered on the way out (spline routes rely on repeated points at the joints). AFF-2: Straight yields exactly 2 points; Polyline yields [start, one point per inner route node at (n.X + W/2, n.Y + layerH/2), end]; Splines append 4-point pieces; AFF-3: within one orthogonal elbow consecutive points share an identical x or y expression and consecutive elbows share x; " +
-			"AFF-9: spline pieces join (shared split point and tangent, p0/p3 from the path ends, pieces emitted reversed while iterating backward); OWN-1: helper nodes keep zero size, so the bend x is the helper node's x in the output, and nothing but a router writes Points; DISP-1: the router that runs is the selected one for every graph with more than one node. That the algorithm the caller selected is the one that runs: OPTS-1 (no other option stores an algorithm on the side) and ORD-6 (after the option loop nothing overwrites the options record - seeded change C14f let Layout replace the selected cycle breaker when another option was present). Not decided: 'never upward' and 'no bend inside a node rectangle' (need C03/C04 numerically).",
+			"AFF-9: spline pieces join (shared split point and tangent, p0/p3 from the path ends, pieces emitted reversed while iterating backward); OWN-1: helper nodes keep zero size, so the bend x is the helper node's x in the output, and nothing but a router writes Points; DISP-1: the router that runs is the selected one for every graph with more than one node. That the algorithm the caller selected is the one that runs: OPTS-1 (no other option stores an algorithm on the side) and ORD-6 (after the option loop nothing overwrites the options record - seeded change C14f let Layout replace the selected cycle breaker when another option was present). ITER-1 (work-list clause): the loop that breaks long edges re-reads the edge list, so every remainder is split again and a long edge gets one helper node - hence one bend - per band it crosses (seeded change C06g iterated a snapshot). Not decided: 'never upward' and 'no bend inside a node rectangle' (need C03/C04 numerically).",
 		Assumptions: []string{"flat (same-layer) edges are outside the decided shapes"},
 	})
 	registerProp(&Property{
@@ -169,7 +169,7 @@ func init() {
 	registerProp(&Property{
 		ID: "C19", Core: []string{"FUN-1"}, Kind: "necessary structural clauses (vertex provenance, orientation of the result, symmetry of the funnel)",
 		Tech:  "typed-AST provenance scan of the triangulation, SSA first/last-element resolution on the router's returns, mirror-image comparison of the funnel's sibling cases",
-		Rules: []string{"TRI-1", "PATH-1", "FUN-1", "AXIS-1"},
+		Rules: []string{"TRI-1", "PATH-1", "FUN-1", "AXIS-1", "DEQ-1"},
 		Explanation: "Three clauses of the corridor router that are visible in the shape of the code. TRI-1: the special-cased triangulation computes no coordinate - every triangle vertex is a copy of rectangle coordinates (X from an X, Y from a Y), floats are only copied, selected and compared - so the funnel can bend only at corridor vertices, which is where a Euclidean shortest path bends. " +
 			"PATH-1: on every return the polyline lists the end point first and the start point last (the one-triangle shortcut by position, the accumulated path by its first append and the closing guard). " +
 			"FUN-1 (sibling cross-check): the left-chain and right-chain cases of the funnel, and the two wedge tests they call, are mirror images (front <-> back, < <-> > on queue indices, clockwise <-> counter-clockwise), and each case touches only its own end of the queue. " +
